@@ -247,10 +247,12 @@ def gen_b(rng):
     def ending(k):
         r = rng.random()
         pre = ["BC" if rng.random() < 0.7 else "BC rev"] if queue else []
-        if r < 0.5:
+        if r < 0.42:
             return pre + ["BR %d %s" % (k, "self" if rng.random() < 0.85 else str(V4BASE + 999))]
-        if r < 0.8:
+        if r < 0.68:
             return pre + ["BT %d" % k]
+        if r < 0.82:
+            return pre + ["BE %d" % k]       # lease expiry: the reaper takes the session
         if r < 0.9:
             return ["BX %d" % k]
         return []
@@ -652,7 +654,7 @@ def signature_b(case, impl, models):
     isnap, msnap = iseg.split(" | ")[1:], mseg.split(" | ")[1:]
     if o[0] in ("BA", "BC") and isnap == msnap and "ack:" in ires and ires.split(" rec=")[0] == mres.split(" rec=")[0]:
         return "ipoe-pending-request-ack-not-recorded"
-    if o[0] in ("BR", "BT"):
+    if o[0] in ("BR", "BT", "BE"):
         lost = [s for key, s in ml.items() if key not in il]
         if lost:
             return "release-frees-foreign-lease"
